@@ -57,7 +57,8 @@ let timed (f : unit -> 'a) (dflt : 'a) : 'a =
 (* ---- objects ---- *)
 type obj = { topo : string; dim : int; flags : string; s : sys; cons : con list; gens : gen list; ok : int;
              lin : int (* dimension of the lineality space, as the library reports it; -1 unknown *);
-             w : string (* which operator produced it *); args : int list (* its operands *) }
+             w : string (* which operator produced it *); args : int list (* its operands *);
+             tok : int (* tokens left after the call that produced it; -1: none *) }
 let parse_st tag line =
   let c = { t = split line } in
   if next c <> tag then raise (Syntax ("expected " ^ tag ^ ": " ^ line));
@@ -69,7 +70,7 @@ let parse_st tag line =
   if next c <> "ok" then raise (Syntax "expected ok");
   let ok = nexti c in
   let lin = (match c.t with "lin" :: v :: _ -> int_of_string v | _ -> -1) in
-  id, { topo; dim; flags; s = sys_of_cons cons; cons; gens; ok; lin; w = ""; args = [] }
+  id, { topo; dim; flags; s = sys_of_cons cons; cons; gens; ok; lin; w = ""; args = []; tok = -1 }
 
 let pool : (int, obj) Hashtbl.t = Hashtbl.create 64
 let get id = try Hashtbl.find pool id with Not_found -> raise (Syntax (Printf.sprintf "unknown object %d" id))
@@ -162,6 +163,20 @@ let () =
                | "cons" -> let spec = sys_of_cons (read_cons c dim) in report "input/new" (want true (equiv_s (nat (dim + 1)) o.s spec))
                | _ -> ());
               report "input/OK" (if o.ok = 1 then Ok else Fail "OK() false"))
+       | ["newe"; _; _; _; st; _] ->
+           incr step; incr stats_steps;
+           (match expect_res "newe" with
+            | `Exn cls -> report "input/exception" (Fail ("constructor threw " ^ cls))
+            | `Ok ->
+              let id, o = parse_st "st" (rd ()) in
+              Hashtbl.replace pool id o;
+              bump ("empty:" ^ st); bump ("emptyflags:" ^ o.topo ^ ":" ^ o.flags);
+              (* the generator's claim: this object denotes the empty set *)
+              (match timed (fun () -> nonempty_sys (dimn o) o.s) None with
+               | Some false -> ()
+               | Some true -> Printf.printf "GENBUG %s %d | %s | the object is not empty\n" !case !step line
+               | None -> report "input/empty" Undecided);
+              report "input/OK" (if o.ok = 1 then Ok else Fail "OK() false"))
        | ["mk"; id; route; src; _] ->
            incr step; incr stats_steps;
            (match expect_res "mk" with
@@ -193,7 +208,7 @@ let () =
               let id', r = parse_st "st" (rd ()) in
               let _, ya = parse_st "sty" (rd ()) in
               let w = if r.topo = "C" || r.topo = "NNC" then w else r.topo ^ "." ^ w in
-              let r = { r with w = w; args = [int_of_string x; int_of_string y] } in
+              let r = { r with w = w; args = [int_of_string x; int_of_string y]; tok = t' } in
               assert (id' = int_of_string id);
               Hashtbl.replace pool id' r;
               let xo = get (int_of_string x) and yo = get (int_of_string y) in
@@ -202,6 +217,13 @@ let () =
                  bump ("flagsx:" ^ xo.flags);
                  report (w ^ "/upper-bound") (want true (incl xo r));
                  report (w ^ "/arg-changed") (want true (equiv ya yo));
+                 (* an empty smaller argument: every widening is the identity on x, and no token is spent *)
+                 (match timed (fun () -> nonempty_sys (dimn yo) yo.s) None with
+                  | Some false ->
+                    bump ("empty-y:" ^ w);
+                    report (w ^ "/empty-argument") (want true (equiv r xo));
+                    if t >= 0 && t' <> t then report (w ^ "/empty-argument-tokens") (Fail (Printf.sprintf "y is empty (verified) but tokens went %d -> %d" t t'))
+                  | _ -> ());
                  report (w ^ "/OK") (if r.ok = 1 && ya.ok = 1 then Ok else Fail "OK() false after the widening");
                  if r.dim <> xo.dim || r.topo <> xo.topo then report (w ^ "/dim") (Fail "dimension or topology changed");
                  (match opt "plain" extra with
@@ -228,7 +250,7 @@ let () =
               let id', r = parse_st "st" (rd ()) in
               let _, ya = parse_st "sty" (rd ()) in
               let w = if r.topo = "C" || r.topo = "NNC" then w else r.topo ^ "." ^ w in
-              Hashtbl.replace pool id' { r with w = w ^ "/" ^ kind; args = [int_of_string x; int_of_string y] };
+              Hashtbl.replace pool id' { r with w = w ^ "/" ^ kind; args = [int_of_string x; int_of_string y]; tok = t' };
               let xo = get (int_of_string x) and yo = get (int_of_string y) in
               let c = { t = rest } in
               if next c <> "cons" then raise (Syntax "expected cons");
@@ -240,6 +262,12 @@ let () =
               (match incl yo xo with
                | Some true ->
                  report (k ^ "/lower") (want true (incl xo r));
+                 (match timed (fun () -> nonempty_sys (dimn yo) yo.s) None with
+                  | Some false ->
+                    bump ("empty-y:" ^ k);
+                    report (k ^ "/empty-argument") (want true (equiv r xo));
+                    if t >= 0 && t' <> t then report (k ^ "/empty-argument-tokens") (Fail (Printf.sprintf "y is empty (verified) but tokens went %d -> %d" t t'))
+                  | _ -> ());
                  report (k ^ "/arg-changed") (want true (equiv ya yo));
                  report (k ^ "/OK") (if r.ok = 1 then Ok else Fail "OK() false");
                  (match opt "plain" extra with
@@ -360,6 +388,10 @@ let () =
              | Some true -> Ok
              | Some false -> Fail "equal arguments (verified) in different representations gave different results (verified)"
              | None -> Undecided)
+       | "#!" :: "sametok" :: a :: b :: _ ->
+           incr step;
+           let ao = get (int_of_string a) and bo = get (int_of_string b) in
+           report (ao.w ^ "/value-dependence-tokens:" ^ ao.topo) (if ao.tok = bo.tok then Ok else Fail (Printf.sprintf "equal arguments in different states: %d tokens left in one run, %d in the other" ao.tok bo.tok))
        | "#!" :: "samecert" :: a :: b :: _ ->
            incr step;
            (match Hashtbl.find_opt certs (int_of_string a), Hashtbl.find_opt certs (int_of_string b) with
